@@ -178,6 +178,9 @@ structure MState where
   hasSens : Bool
   admin : Option Admin               -- `_administration`
   regimen : Option Nat               -- `_dosing_regimen`
+  nSens : Nat                        -- `_n_sensitivity_parameters`: written when sensitivities are enabled,
+                                     -- read by `simulate` on an empty time grid; kept (stale) when they are
+                                     -- switched off
   deriving DecidableEq, Repr, Inhabited
 
 /-- where an entry of the vector handed to the solver comes from -/
@@ -222,7 +225,7 @@ def init : MState :=
   let t := tablesOf b .vanilla
   { model := .vanilla, tabs := t, outputNames := t.stateNames, nOutputs := t.nStates,
     pmap := idMap t.paramNames, omap := idMap t.stateNames,
-    sim := ⟨.vanilla, none, none⟩, hasSens := false, admin := none, regimen := none }
+    sim := ⟨.vanilla, none, none⟩, hasSens := false, admin := none, regimen := none, nSens := 0 }
 
 /-- the parameter expressions `enable_sensitivities` hands to myokit -/
 def sensExprs (t : Tables) : List String :=
@@ -247,7 +250,8 @@ def enableSensM (s : MState) (on : Bool) (names : Option (List String)) : MState
     let sel := sensSelect s.tabs s.pmap names
     if sel = [] then (s, some .valueError)
     else
-      (attach { s with sim := ⟨s.model, some (s.outputNames, sel), none⟩, hasSens := true }, none)
+      (attach { s with sim := ⟨s.model, some (s.outputNames, sel), none⟩, hasSens := true,
+                       nSens := sel.length }, none)
 
 /-- displayed → myokit names, as `set_outputs` does it (sequential replacement of first matches) -/
 def translate (omap : List (String × String)) (outs : List String) : List String :=
@@ -532,6 +536,8 @@ structure Obs where
   regimen : Option Nat
   hasSens : Bool
   sim : Option SimRecord
+  emptyGrid : Option (Nat × Option Nat)   -- `simulate(p, [])`: number of output rows, number of sensitivity
+                                          -- columns (`none`: no sensitivities returned); `none`: it raises
   deriving DecidableEq, Repr
 
 def nParametersO (o : Obj) : Nat := match o.r with
@@ -563,9 +569,38 @@ def hasSensO (o : Obj) : Bool := match o.r with
   | none => o.m.hasSens
   | some r => hasSensR o.m r
 
+/-- `SBMLModel.simulate` on an empty time grid: the solver is reset and handed the state and constants (this
+can raise as in `simulateM`), nothing is integrated, and the shapes come from `_n_outputs` and — if
+`_has_sensitivities` — `_n_sensitivity_parameters` -/
+def simulateEmptyM (s : MState) (args : List Src) : Option (Nat × Option Nat) :=
+  let p := args.take s.tabs.nStates
+  match mapMOpt (fun i => p[i]?) s.tabs.origOrder with
+  | none => none
+  | some perm =>
+    if perm.length != (vStates b s.sim.variant).length then none
+    else
+      let rest := args.drop s.tabs.nStates
+      match mapMOpt (fun (ci : String × Nat) => rest[ci.2]?.map (fun x => (ci.1, x))) s.tabs.constNames.zipIdx with
+      | none => none
+      | some cs =>
+        if cs.any (fun c => c.1 ∉ vConsts b s.sim.variant) then none
+        else some (s.nOutputs, if s.hasSens then some s.nSens else none)
+
+/-- through the wrapper: with `_empty_sensitivities` an empty block of sensitivities is appended -/
+def simulateEmptyO (o : Obj) : Option (Nat × Option Nat) :=
+  match fullArgs o.r (nParametersO o) with
+  | none => none
+  | some args =>
+    match o.r with
+    | none => simulateEmptyM b o.m args
+    | some r =>
+      if r.emptySens then (simulateEmptyM b o.m args).map (fun x => (x.1, some 0))
+      else simulateEmptyM b o.m args
+
 def observe (o : Obj) : Obs :=
   { params := parametersO o, nParams := nParametersO o, outputs := outputsM o.m,
-    regimen := o.m.regimen, hasSens := hasSensO o, sim := simulateO b o }
+    regimen := o.m.regimen, hasSens := hasSensO o, sim := simulateO b o,
+    emptyGrid := simulateEmptyO b o }
 
 /-! ## the specification side: the visible configuration -/
 
@@ -585,6 +620,9 @@ structure Config where
   omap : List (String × String)         -- displayed output names
   sens : Option (List String)           -- parameters whose sensitivities are requested
   red : Option RedCfg                   -- wrapped in a `ReducedMechanisticModel`?
+  sensCount : Nat                       -- not a setting: the residue `_n_sensitivity_parameters` of the last
+                                        -- enabling (= number of selected parameters while enabled; unobservable
+                                        -- while sensitivities are off)
   deriving DecidableEq, Repr, Inhabited
 
 def variantOf : Option Admin → Variant
@@ -602,7 +640,7 @@ def buildM (c : Config) : MState :=
   let v := variantOf c.admin
   { model := v, tabs := tablesOf b v, outputNames := c.outputs, nOutputs := c.outputs.length,
     pmap := c.pmap, omap := c.omap, sim := ⟨v, c.sens.map (fun sel => (c.outputs, sel)), c.regimen⟩,
-    hasSens := c.sens.isSome, admin := c.admin, regimen := c.regimen }
+    hasSens := c.sens.isSome, admin := c.admin, regimen := c.regimen, nSens := c.sensCount }
 
 def buildR (c : Config) (r : RedCfg) : Red :=
   { nParams := (cfgTables b c).nParams, names := (cfgPublic b c).getD [], mask := r.mask,
@@ -613,13 +651,13 @@ def build (c : Config) : Obj := ⟨buildM b c, c.red.map (buildR b c)⟩
 def initCfg : Config :=
   let t := tablesOf b .vanilla
   { admin := none, regimen := none, outputs := t.stateNames, pmap := idMap t.paramNames,
-    omap := idMap t.stateNames, sens := none, red := none }
+    omap := idMap t.stateNames, sens := none, red := none, sensCount := 0 }
 
 def cfgSens (c : Config) (on : Bool) (names : Option (List String)) : Config × Option Err :=
   if !on then ({ c with sens := none }, none)
   else
     let sel := sensSelect (cfgTables b c) c.pmap names
-    if sel = [] then (c, some .valueError) else ({ c with sens := some sel }, none)
+    if sel = [] then (c, some .valueError) else ({ c with sens := some sel, sensCount := sel.length }, none)
 
 def cfgOutputs (c : Config) (outs : List String) : Config × Option Err :=
   let outs1 := translate c.omap outs
